@@ -15,7 +15,13 @@ use serde_json::{json, Value};
 pub const TOKENS: [&str; 15] = ["$ENV{", "$", "{", "}", "A", "A.B", "_x", "U", "é", "/", "-", "ENV", "9", ".", "日"];
 
 /// (name, value) — set once per process before any worker starts; values are free of '$'
-pub const VARS: [(&str, &str); 11] = [
+/// whole references and reference fragments: short sequences over these put a literal '$', an (empty or
+/// fragment-valued) reference and reference-like text next to each other, so that a substitution can *form*
+/// the text of another reference — which must stay literal text
+pub const MACRO_TOKENS: [&str; 11] = ["$ENV{A}", "$ENV{_x}", "$ENV{E2}", "$ENV{Aé}", "ENV{A}", "$", "$ENV", "ENV", "{A}", "x", "/"];
+
+pub const VARS: [(&str, &str); 12] = [
+    ("E2", "ENV{A}"),
     ("日", "ri"),
     ("A日", "a-ri"),
     ("A", "v"),
@@ -265,7 +271,8 @@ pub fn run(ctx: &Ctx) -> Report {
     rep.set(
         "rule",
         "E-ENUM: every token sequence up to the length bound over {$ENV{, $, {, }, A, A.B, _x, U(unset), é, /, -, ENV, 9, .} as a path below a fresh sandbox, \
-         through FileAppender::builder().build (all), RollingFileAppender and FixedWindowRoller::roll (shorter sub-lattice); the file must appear exactly at \
+         through FileAppender::builder().build (all), RollingFileAppender and FixedWindowRoller::roll (shorter sub-lattice); plus every sequence of up to 4 (thorough 5) whole references / reference fragments \
+         {$ENV{A}, $ENV{_x}(empty), $ENV{E2}(value ENV{A}), $ENV{Aé}(value {A}), ENV{A}, $, $ENV, ENV, {A}, x, /}; the file must appear exactly at \
          the reference scanner's expansion and nowhere else; no panic on any string. Non-trivial = string containing '$ENV{' (distinct strings counted)",
     );
     let maxlen = ctx.tier.pick(5usize, 6usize);
@@ -319,6 +326,45 @@ pub fn run(ctx: &Ctx) -> Report {
         if done < n {
             capped = true;
         }
+    }
+    // macro-token sequences: text of a reference formed by an earlier substitution
+    let mlen = ctx.tier.pick(4usize, 5usize);
+    let mut macro_paths: Vec<String> = vec![String::new()];
+    let mut fr: Vec<String> = vec![String::new()];
+    for _ in 0..mlen {
+        let mut nx = vec![];
+        for w in &fr {
+            for t in MACRO_TOKENS {
+                nx.push(format!("{}{}", w, t));
+            }
+        }
+        macro_paths.extend(nx.iter().cloned());
+        fr = nx;
+    }
+    macro_paths.sort();
+    macro_paths.dedup();
+    let bad_m: Vec<(String, Via, (String, String))> = macro_paths
+        .par_iter()
+        .flat_map_iter(|p| {
+            let mut v = vec![];
+            if !ctx.over_cap() {
+                for via in [Via::File, Via::Roller] {
+                    if via == Via::Roller && (p.contains("{}") || p.ends_with('{')) {
+                        continue;
+                    }
+                    if let Some(m) = check(p, via) {
+                        v.push((p.clone(), via, m));
+                    }
+                }
+            }
+            v
+        })
+        .collect();
+    rep.add("evaluations", macro_paths.len() as u64 * 2);
+    rep.add("distinct_nontrivial", macro_paths.iter().filter(|p| p.contains("$ENV{")).count() as u64);
+    rep.set("macro_token_sequences", macro_paths.len() as u64);
+    for (p, via, (sg, d)) in bad_m.into_iter().take(200) {
+        rep.violation(format!("formed-reference:{}", sg), d, json!({"path": p, "via": format!("{:?}", via)}));
     }
     // relative paths in child processes (cwd is process-global)
     let rel_len = ctx.tier.pick(4usize, 5usize);
